@@ -249,9 +249,13 @@ def run(scn, save_points, m_steps):
     for sp in save_points:
         a = make(scn)
         program(a, scn)
+        twin = make(scn)            # the same machine, never asked for a snapshot
+        program(twin, scn)
         for n in range(sp):
             drive(a, scn, n)
             a.step()
+            drive(twin, scn, n)
+            twin.step()
         tmp = tempfile.mkdtemp(prefix="c16_")
         path = os.path.join(tmp, "s.pcsnap")
         a.save_snapshot(path)
@@ -259,18 +263,22 @@ def run(scn, save_points, m_steps):
         b.load_snapshot(path)
         diffs, skipped, n_attrs = graph_diff(a, b)
         first = None
-        va, vb = view(a), view(b)
+        va, vb, vt = view(a), view(b), view(twin)
+        disturbed = None
+        if va != vt:
+            disturbed = dict(step=0, fields=[k for k in va if va[k] != vt[k]])
         if va != vb:
             first = dict(step=0, fields=[k for k in va if va[k] != vb[k]])
         steps_done = 0
         if first is None:
             for n in range(sp, sp + m_steps):
-                drive(a, scn, n)
-                drive(b, scn, n)
-                a.step()
-                b.step()
+                for e in (a, b, twin):
+                    drive(e, scn, n)
+                    e.step()
                 steps_done += 1
-                va, vb = view(a), view(b)
+                va, vb, vt = view(a), view(b), view(twin)
+                if disturbed is None and va != vt:
+                    disturbed = dict(step=n - sp + 1, fields=[k for k in va if va[k] != vt[k]])
                 if va != vb:
                     first = dict(step=n - sp + 1, fields=[k for k in va if va[k] != vb[k]],
                                  original={k: va[k] for k in va if va[k] != vb[k] and k != "keyboard"},
@@ -279,8 +287,7 @@ def run(scn, save_points, m_steps):
         import shutil
         shutil.rmtree(tmp, ignore_errors=True)
         out.append(dict(scenario=scn, save_point=sp, attributes_compared=n_attrs, graph_diffs=diffs[:20], n_graph_diffs=len(diffs),
-                        excluded=skipped, lockstep_steps=steps_done, divergence=first,
-                        state_at_save=dict(halted=va["halted"] if steps_done == 0 else None)))
+                        excluded=skipped, lockstep_steps=steps_done, divergence=first, save_disturbs_original=disturbed))
     return out
 
 
@@ -290,10 +297,10 @@ def replay(body):
     if "scenario" not in m:
         return 4, "no scenario recorded"
     r = run(m["scenario"], [m["save_point"]], m.get("m", 60))[0]
-    if r["n_graph_diffs"] or r["divergence"]:
-        return 1, (f"scenario {m['scenario']} saved after {m['save_point']} steps: restored emulator differs from the original: "
-                   + json.dumps(dict(graph=r["graph_diffs"][:4], divergence=r["divergence"]), default=str)[:900])
-    return 0, f"scenario {m['scenario']} saved after {m['save_point']} steps: restored emulator equals the original and stays in lockstep for {r['lockstep_steps']} steps"
+    if r["n_graph_diffs"] or r["divergence"] or r["save_disturbs_original"]:
+        return 1, (f"scenario {m['scenario']} saved after {m['save_point']} steps: "
+                   + json.dumps(dict(graph=r["graph_diffs"][:4], divergence=r["divergence"], save_disturbs_original=r["save_disturbs_original"]), default=str)[:900])
+    return 0, f"scenario {m['scenario']} saved after {m['save_point']} steps: restored emulator equals the original and stays in lockstep for {r['lockstep_steps']} steps; the saving emulator stays equal to a twin that never saved"
 
 
 def replay_memory(body):
